@@ -110,3 +110,7 @@ Theorem C12_failed_attempt_no_trace : forall g done n t, ready g done n = false 
   round g done (n :: t) = (fst (round g done t), n :: snd (round g done t)).
 Proof. exact failed_attempt_no_trace. Qed.
 Print Assumptions C12_failed_attempt_no_trace.
+
+Theorem C12_registries_are_persistent : gen_registries_persistent = true.
+Proof. exact registries_are_persistent. Qed.
+Print Assumptions C12_registries_are_persistent.
